@@ -392,3 +392,16 @@ pub fn chunk_reader(chunks: Vec<Payload>) -> impl serde_amqp::read::Read<'static
     use crate::util::IntoReader;
     chunks.into_reader()
 }
+
+/// `IncompleteTransfer::keep_buffer_till_section_number_and_offset` on a delivery under way whose
+/// frames so far carried `chunks`: the chunks kept afterwards
+pub fn keep_buffer_till(chunks: Vec<Payload>, section_number: u32, section_offset: u64) -> Vec<Vec<u8>> {
+    let mut chunks = chunks.into_iter();
+    let first = chunks.next().unwrap_or_default();
+    let mut incomplete = crate::link::verif_incomplete_transfer(first);
+    for c in chunks {
+        incomplete.append(c);
+    }
+    incomplete.keep_buffer_till_section_number_and_offset(section_number, section_offset);
+    incomplete.buffer.iter().map(|b| b.to_vec()).collect()
+}
